@@ -860,3 +860,116 @@ Proof.
   eapply perm_trans; [exact P'|]. eapply perm_trans; [|symmetry; exact P0].
   apply Permutation_app_tail. rewrite (active_items_ext _ _ Hc Hs). reflexivity.
 Qed.
+
+(** ** C01: the protecting state is a function of the active chain *)
+Definition gs_of (s : cst) (j : N) : list (list ccmd) :=
+  match find ccmd (blocks _ _ s) j with Some b => b_gs _ b | None => [] end.
+(** the payloads (command groups) of tip, parent(tip), ..., root *)
+Definition chain_gs (s : cst) : list (list (list ccmd)) := map (gs_of s) (chain s).
+
+Lemma active_items_filter : forall l : list (blk ccmd),
+    active_items l = flat_map (fun b => block_items (b_gs _ b)) (filter (b_act ccmd) l).
+Proof.
+  induction l as [|b r IH]; [reflexivity|]. cbn [active_items flat_map filter]. fold (active_items r). rewrite IH.
+  destruct (b_act ccmd b); reflexivity.
+Qed.
+Lemma flat_map_perm : forall (A B : Type) (f : A -> list B) l l', Permutation l l' -> Permutation (flat_map f l) (flat_map f l').
+Proof.
+  intros A B f l l' H. induction H; cbn.
+  - constructor.
+  - apply Permutation_app_head. assumption.
+  - rewrite !app_assoc. apply Permutation_app_tail. apply Permutation_app_comm.
+  - eapply perm_trans; eassumption.
+Qed.
+Lemma find_in_blocks : forall (l : list (blk ccmd)) b, NoDup (ids l) -> In b l -> find ccmd l (b_id _ b) = Some b.
+Proof.
+  induction l as [|h r IH]; intros b ND HI; [destruct HI|]. cbn in ND. inversion ND as [|? ? Hn ND']; subst.
+  cbn. destruct HI as [HI|HI].
+  - subst. rewrite N.eqb_refl. reflexivity.
+  - destruct (N.eqb (b_id ccmd h) (b_id ccmd b)) eqn:E.
+    + apply N.eqb_eq in E. exfalso. apply Hn. rewrite E. apply in_map. exact HI.
+    + apply IH; assumption.
+Qed.
+Lemma find_some_in : forall (l : list (blk ccmd)) i b, find ccmd l i = Some b -> In b l /\ b_id _ b = i.
+Proof.
+  induction l as [|h r IH]; intros i b H; cbn in H; [discriminate|].
+  destruct (N.eqb (b_id ccmd h) i) eqn:E.
+  - inversion H; subst. apply N.eqb_eq in E. split; [left; reflexivity|exact E].
+  - apply IH in H. destruct H. split; [right; assumption|assumption].
+Qed.
+
+Definition found (s : cst) (js : list N) : list (blk ccmd) :=
+  flat_map (fun j => match find ccmd (blocks _ _ s) j with Some b => [b] | None => [] end) js.
+Lemma found_items : forall s js,
+    flat_map block_items (map (gs_of s) js) = flat_map (fun b => block_items (b_gs _ b)) (found s js).
+Proof.
+  intros s js. unfold found. induction js as [|j r IH]; [reflexivity|]. cbn. rewrite flat_map_app, IH. unfold gs_of.
+  destruct (find ccmd (blocks pstate ccmd s) j); cbn; [rewrite app_nil_r|]; reflexivity.
+Qed.
+Lemma found_nodup : forall s js, NoDup js -> NoDup (found s js).
+Proof.
+  intros s js. unfold found. induction js as [|j r IH]; intros NDc; [constructor|].
+  inversion NDc as [|? ? Hn NDr]; subst. cbn. destruct (find ccmd (blocks pstate ccmd s) j) as [b|] eqn:F; cbn; [|apply IH; exact NDr].
+  constructor; [|apply IH; exact NDr]. intro Hin. apply Hn. apply in_flat_map in Hin. destruct Hin as (k & Hk & Hb).
+  destruct (find ccmd (blocks pstate ccmd s) k) as [b2|] eqn:F2; [|destruct Hb]. destruct Hb as [<-|[]].
+  apply find_some_in in F. apply find_some_in in F2. destruct F, F2. congruence.
+Qed.
+
+Theorem active_items_chain : forall s,
+    quiet s -> Permutation (active_items (blocks _ _ s)) (flat_map block_items (chain_gs s)).
+Proof.
+  intros s Q. pose proof (applied_exactly s Q) as AE. destruct Q as (W & Ta & Hn).
+  pose proof W as (ND & _).
+  assert (NDi : NoDup (ids (blocks _ _ s))).
+  { unfold ids. unfold cores in ND. rewrite map_map in ND. exact ND. }
+  rewrite active_items_filter. unfold chain_gs.
+  rewrite found_items. apply flat_map_perm.
+  assert (NDc : NoDup (chain s)).
+  { unfold chain. apply anc_list_active; [exact W|exact Ta|].
+    assert (0 <= hgt (cores s) (tip _ _ s) - hgt (cores s) (root _ _ s)).
+    { destruct W as (_ & (hr & HR) & _ & HN0). apply cfind_some in HR. destruct HR as [_ Hin].
+      assert (In (root pstate ccmd s, root pstate ccmd s, hr, true) (filter e_act (cores s))) by (apply filter_In; split; [exact Hin|reflexivity]).
+      assert (1 <= nact (cores s))%nat by (unfold nact; destruct (filter e_act (cores s)); [destruct H|cbn; lia]).
+      assert (1 <= Z.of_N (napp pstate ccmd s)) by (rewrite HN0, nat_N_Z; lia). lia. }
+    rewrite Z2Nat.id by lia. lia. }
+  apply NoDup_Permutation.
+  - apply (NoDup_map_inv (b_id ccmd)).
+    assert (S : forall l : list (blk ccmd), NoDup (map (b_id ccmd) l) -> NoDup (map (b_id ccmd) (filter (b_act ccmd) l))).
+    { induction l as [|x r IH]; intros H; cbn in *; [constructor|]. inversion H as [|? ? Hnx H']; subst.
+      destruct (b_act ccmd x); cbn; [|apply IH; exact H']. constructor; [|apply IH; exact H'].
+      intro Hin. apply Hnx. apply in_map_iff in Hin. destruct Hin as (y & Hy & Hin). apply filter_In in Hin. destruct Hin.
+      apply in_map_iff. exists y. split; assumption. }
+    apply S. exact NDi.
+  - apply found_nodup. exact NDc.
+  - intros b. unfold found. rewrite filter_In, in_flat_map. split.
+    + intros [Hin Ha]. exists (b_id ccmd b). pose proof (find_in_blocks _ _ NDi Hin) as F. rewrite F. split; [|left; reflexivity].
+      apply AE. exists (core b). split; [apply find_cfind; exact F|exact Ha].
+    + intros (j & Hj & Hb). destruct (find ccmd (blocks pstate ccmd s) j) as [b2|] eqn:F; [|destruct Hb]. destruct Hb as [<-|[]].
+      apply AE in Hj. destruct Hj as (e & He & Ha). rewrite (find_cfind _ _ _ F) in He. inversion He; subst e.
+      apply find_some_in in F. destruct F. split; [assumption|exact Ha].
+Qed.
+
+(** C01: two histories (without comparisons) ending with the same active chain - the same payloads on root..tip -
+    end with the same protecting state: same reference count of every SP block, same endorsement multiset.
+    In particular the fresh instance that is only shown the final chain. *)
+Theorem history_independence_chain : forall base r1 h1 ops1 s1 r2 h2 ops2 s2,
+    no_compare ops1 -> no_compare ops2 ->
+    run (c_init r1 h1 base) ops1 = Ok s1 -> run (c_init r2 h2 base) ops2 = Ok s2 ->
+    chain_gs s1 = chain_gs s2 ->
+    Permutation (pst _ _ s1) (pst _ _ s2) /\ (forall x, count_ref x (pst _ _ s1) = count_ref x (pst _ _ s2)).
+Proof.
+  intros base r1 h1 ops1 s1 r2 h2 ops2 s2 N1 N2 R1 R2 Hc.
+  apply history_independence_applied with (base := base).
+  - exists r1, h1, ops1. exact R1.
+  - exists r2, h2, ops2. exact R2.
+  - eapply perm_trans; [apply active_items_chain; eapply quiet_run; [exact N1|apply quiet_init|exact R1]|].
+    rewrite Hc. symmetry. apply active_items_chain. eapply quiet_run; [exact N2|apply quiet_init|exact R2].
+Qed.
+
+Theorem applied_exactly_run : forall base r h ops s,
+    no_compare ops -> run (c_init r h base) ops = Ok s ->
+    quiet s /\ forall j, is_act (cores s) j <-> In j (chain s).
+Proof.
+  intros base r h ops s NC R. assert (Q : quiet s) by (eapply quiet_run; [exact NC|apply quiet_init|exact R]).
+  split; [exact Q|apply applied_exactly; exact Q].
+Qed.
